@@ -131,6 +131,13 @@ def mk(kind, *args):
   return Poly.atom(Atom(kind, *a))
 
 
+def _listlike(x):
+  if isinstance(x, Seq):
+    return x.kind == "list"
+  a = x.as_atom() if isinstance(x, Poly) else None
+  return a is not None and a.kind in ("map", "listrep", "concat")
+
+
 def rebuild(p):
   """Re-normalises every atom bottom-up through mk() (used after substitution)."""
   if not isinstance(p, Poly):
@@ -583,6 +590,8 @@ class Walker:
       return mk("listrep", as_poly(r), as_poly(l))          # n * [x] = [x] * n
     if isinstance(e.op, ast.Add) and isinstance(l, Const) and isinstance(r, Const) and isinstance(l.v, str) and isinstance(r.v, str):
       return Const(l.v + r.v)
+    if isinstance(e.op, ast.Add) and _listlike(l) and _listlike(r):
+      return mk("concat", as_poly(l), as_poly(r))          # list + list keeps its order (a polynomial sum would commute)
     return self.binop(e.op, as_poly(l), as_poly(r), e)
 
   def ev_Subscript(self, e, st):
@@ -825,7 +834,15 @@ class Walker:
         return
       else:
         idx = self.ev(t.slice, st)
-      self.emit("store", node, st, base=base, index=idx, value=v, target=t)
+      outer = {}
+      if isinstance(t.value, ast.Subscript) and not isinstance(t.value.slice, ast.Slice):
+        # M[r][c] = v: the row M[r] may be normalised away (a row of a comprehension-built matrix is its element expression); keep M and r
+        self.quiet += 1
+        try:
+          outer = {"outer_base": self.ev(t.value.value, st), "outer_index": self.ev(t.value.slice, st)}
+        finally:
+          self.quiet -= 1
+      self.emit("store", node, st, base=base, index=idx, value=v, target=t, **outer)
       x = t.value
       if isinstance(x, ast.Name):
         st.env[x.id] = mk("upd", as_poly(base), as_poly(idx), as_poly(v))
